@@ -21,7 +21,7 @@ def run(m, chk):
         "np.zeros/ones/eye/empty without dtype=object, true division of two library integers) reaches a return value or a state write of the listed operations; no fixed-width integer dtype on those paths; on the polynomial "
         "paths of evaluation / insertion / elevation / splitting points are only used as `scalar * point` (point on the right) and `point + point`. Agreement of float and exact results to 1e-9 is not decided."
     )
-    chk.decides = ["E8: no library float reaches a sink of the exact entries", "FIXED-WIDTH", "MIN-POINT", 'MEMO-KEY', 'no truncated library float (int(float)) used as a value']
+    chk.decides = ["E8: no library float reaches a sink of the exact entries", "FIXED-WIDTH", "MIN-POINT", 'MEMO-KEY', 'no truncated library float (int(float)) used as a value', 'ONE-NODE-FAMILY (fit_points)']
     chk.not_decided = ["float and exact runs agree to relative 1e-9", "conditioning", "values equal the mathematically exact result"]
     chk.assume("user `int / int` at the API surface is Python semantics, not a float introduced by the library")
     chk.assume("a true division is reported only when both operands are library integers on every path ('may be an integer' is not reported)")
@@ -64,9 +64,10 @@ def run(m, chk):
         chk.ob("FIXED-WIDTH", f"{q}: `{text[:50]}`", False, loc=loc, detail=f"{q}: `{text}` at {loc} casts an exact result to a fixed-width integer dtype: integers beyond 2**63 overflow (or wrap) although the exact path promises arbitrary precision", func=q, construct=f"fixed-width cast {text[:40]}")
     if not nfw:
         chk.ob("FIXED-WIDTH", "no fixed-width integer dtype on the exact paths", True, loc="", detail="")
-    from .extra import memo_key
+    from .extra import memo_key, one_node_family
 
     memo_key(r, chk)
+    one_node_family(r, chk, "curves.Curve.fit_points")
     # positive control: the kind analysis does see library floats where they are by design
     pc = AX.ctxs
     ctl = 0
@@ -105,7 +106,23 @@ def run(m, chk):
                 return is_pt(e.args[0], local)
             return False
 
+        # loop variables of comprehensions over containers of points are points too (flow-insensitive, per function)
+        for comp in ast.walk(fi.node):
+            if isinstance(comp, (ast.ListComp, ast.GeneratorExp)):
+                pts |= set(_comp_points(comp, is_cont))
         for node in ast.walk(fi.node):
+            # division of a point (point / scalar, point /= scalar) is not among the two supported operations
+            dv = None
+            if isinstance(node, ast.BinOp) and isinstance(node.op, ast.Div) and (is_pt(node.left) or is_cont(node.left)):
+                dv = node
+            elif isinstance(node, ast.AugAssign) and isinstance(node.op, ast.Div) and (is_pt(node.target) or is_cont(node.target)):
+                dv = node
+            if dv is not None:
+                n += 1
+                chk.ob("MIN-POINT", f"{q}: `{seg(dv, 50)}` does not divide a point", False, loc=r.loc(ctx, dv),
+                       detail=f"{q}: `{seg(dv, 60)}` divides a (weighted) control point by a scalar: a user point type that only supports `scalar * point` and `point + point` fails on this path (rational curves), and numpy refuses the in-place form for integer arrays; multiply by the inverse of the scalar instead",
+                       func=q, construct=f"point divided: {seg(dv, 40)}")
+                continue
             l = rr = None
             if isinstance(node, ast.BinOp) and isinstance(node.op, (ast.Mult, ast.MatMult)):
                 l, rr = node.left, node.right
